@@ -503,7 +503,7 @@ Section GJoin.
     destruct (coo_concat_src_correct V veqb veqb_eq vzero vadd a r axis k Hax Hwf Hso Hfl) as [c [Hc [Hcan Hj]]].
     assert (H5 : fl_fill concat_flags <> FillAbsent) by (cbn; discriminate).
     pose proof (coo_concat_value V veqb veqb_eq vzero vadd concat_flags site_concatenate_axis_ndim
-                  site_concatenate_checks_consistent_fill a r axis k eq_refl Hax eq_refl eq_refl H5 Hwf Hso Hfl) as Hv.
+                  site_concatenate_checks_consistent_fill site_concatenate_mismatch_exc a r axis k eq_refl Hax eq_refl eq_refl H5 Hwf Hso Hfl) as Hv.
     unfold coo_concatenate_src, coo_concatenate_opt in Hc. rewrite Hv in Hc. inversion Hc; subst c.
     split; assumption.
   Qed.
@@ -600,6 +600,27 @@ Section GJoin.
     split; [apply from_coo_caxes; lia|].
     intros ix Hix. rewrite from_coo_shape in Hix.
     rewrite (gcxs_from_coo_den_proof V veqb vadd C _ ix HcanC HokC Hax'). apply HdenC. exact Hix.
+  Qed.
+
+  (* axis=None with all-GCXS members: the flattened members go through the COO joiner *)
+  Theorem gcxs_concat_none_correct (vzero : V) (vadd : V -> V -> V) (a : coo) (ca_a : list Z) (r : list (coo * list Z)) :
+    Forall (cwf V) (a :: map fst r) ->
+    Forall (fun x => c_fill x = c_fill a) (map fst r) ->
+    Forall (fun p => axes_ok (c_shape (fst p)) (snd p)) ((a, ca_a) :: r) ->
+    exists c, gcxs_concatenate_none_src V veqb vzero vadd
+                (map (fun p => gcxs_from_coo (fst p) (snd p)) ((a, ca_a) :: r)) = Ok c
+      /\ canonical V c
+      /\ join_result V c a (np_concatenate_none (darr_of_coo a) (map darr_of_coo (map fst r))).
+  Proof.
+    intros Hwf Hfl Hax. unfold gcxs_concatenate_none_src, gcxs_concatenate_none.
+    assert (E : map (gcxs_tocoo veqb vadd) (map (fun p : coo * list Z => gcxs_from_coo (fst p) (snd p)) ((a, ca_a) :: r))
+                = a :: map fst r).
+    { change (a :: map fst r) with (map fst ((a, ca_a) :: r)). rewrite map_map. apply map_ext_in. intros p Hp.
+      assert (Hin : In (fst p) (a :: map fst r)).
+      { change (In (fst p) (map fst ((a, ca_a) :: r))). apply in_map. exact Hp. }
+      rewrite Forall_forall in Hwf, Hax. destruct (Hwf _ Hin) as [Hc Hok].
+      apply tocoo_from_coo_proof; [exact Hc|exact Hok|exact (Hax _ Hp)]. }
+    rewrite E. apply (coo_concat_none_proof V veqb veqb_eq vzero vadd); assumption.
   Qed.
 End GJoin.
 
